@@ -39,6 +39,9 @@ type caseT struct {
 	Procs       int      `json:"procs,omitempty"` // GOMAXPROCS for this case (0 = leave)
 	Senders     int      `json:"senders,omitempty"`
 	Comment     string   `json:"comment,omitempty"`
+	Partial     bool     `json:"partial,omitempty"`      // failing FMap arrows emit part of their output first
+	DupInput    bool     `json:"dup_input,omitempty"`    // Join: the first input channel is passed twice
+	NilInput    bool     `json:"nil_input,omitempty"`    // Join: a nil channel is among the inputs (never closes)
 	OneProducer bool     `json:"one_producer,omitempty"` // one goroutine serves all inputs in script order (a blocked send delays everything behind it)
 }
 
